@@ -384,6 +384,7 @@ class SimServer:
         self._closed = False
         self._forever: asyncio.Future[None] | None = None
         self.sockets: list[Any] = []
+        self.limit = 2**16
 
     async def __aenter__(self) -> "SimServer":
         return self
@@ -474,13 +475,17 @@ class SimNet:
         self, cb: Callable[..., Awaitable[None]], host: Any = None, port: Any = None, **kw: Any
     ) -> SimServer:
         addr = ("tcp", host, port)
-        return self._listen(addr, cb)
+        srv = self._listen(addr, cb)
+        srv.limit = kw.get("limit", 2**16)
+        return srv
 
     async def start_unix_server(
         self, cb: Callable[..., Awaitable[None]], path: Any = None, **kw: Any
     ) -> SimServer:
         addr = ("unix", str(path))
-        return self._listen(addr, cb)
+        srv = self._listen(addr, cb)
+        srv.limit = kw.get("limit", 2**16)
+        return srv
 
     def _listen(self, addr: Any, cb: Callable[..., Awaitable[None]]) -> SimServer:
         if addr in self.listeners:
@@ -498,14 +503,14 @@ class SimNet:
     async def open_connection(
         self, host: Any = None, port: Any = None, **kw: Any
     ) -> tuple[asyncio.StreamReader, asyncio.StreamWriter]:
-        return await self._connect(("tcp", host, port))
+        return await self._connect(("tcp", host, port), kw.get("limit", 2**16))
 
     async def open_unix_connection(
         self, path: Any = None, **kw: Any
     ) -> tuple[asyncio.StreamReader, asyncio.StreamWriter]:
-        return await self._connect(("unix", str(path)))
+        return await self._connect(("unix", str(path)), kw.get("limit", 2**16))
 
-    async def _connect(self, addr: Any) -> tuple[asyncio.StreamReader, asyncio.StreamWriter]:
+    async def _connect(self, addr: Any, client_limit: int = 2**16) -> tuple[asyncio.StreamReader, asyncio.StreamWriter]:
         loop = self.loop
         rtt = self.rng.uniform(*self.connect_delay)
         st = self.state.get(addr)
@@ -533,16 +538,16 @@ class SimNet:
         )
         self.connections.append(conn)
 
-        def mk(tr: SimStreamTransport) -> tuple[asyncio.StreamReader, asyncio.StreamWriter]:
-            reader = asyncio.StreamReader(limit=2**16, loop=loop)
+        def mk(tr: SimStreamTransport, limit: int) -> tuple[asyncio.StreamReader, asyncio.StreamWriter]:
+            reader = asyncio.StreamReader(limit=limit, loop=loop)
             proto = asyncio.StreamReaderProtocol(reader, loop=loop)
             tr.set_protocol(proto)
             proto.connection_made(tr)
             writer = asyncio.StreamWriter(tr, proto, reader, loop)
             return reader, writer
 
-        cr, cw = mk(conn.c)
-        sr, sw = mk(conn.s)
+        cr, cw = mk(conn.c, client_limit)
+        sr, sw = mk(conn.s, srv.limit)
         # like asyncio's server-side StreamReaderProtocol, keep the streams alive after the handler returned
         conn.server_streams = (sr, sw)
         if self.on_accept is not None:
